@@ -236,7 +236,7 @@ func main() {
 	out := os.Getenv("VERIF_OUT")
 	n := 220
 	if tier == "thorough" {
-		n = 5000
+		n = 20000
 	}
 	if v := os.Getenv("VERIF_N"); v != "" {
 		n, _ = strconv.Atoi(v)
